@@ -240,6 +240,9 @@ class ScopeStack(Sequence):
         )
 
 
+_NOT_FOUND = object()
+
+
 def symbol_needs_import(fullname, namespaces):
     """
     Return whether ``fullname`` is a symbol that needs to be imported, given
@@ -279,9 +282,11 @@ def symbol_needs_import(fullname, namespaces):
             # Check if this partial name was imported/assigned in this
             # scope.  In the common case, there will only be one namespace
             # in the namespace stack, i.e. the user globals.
-            try:
-                var = ns[str(partial_name)]
-            except KeyError:
+            # (``dict.get`` and not ``ns[...]``: a namespace may be a dict
+            # subclass such as a ``defaultdict``, whose ``__missing__`` would
+            # run user code and add the key to the caller's namespace.)
+            var = dict.get(ns, str(partial_name), _NOT_FOUND)
+            if var is _NOT_FOUND:
                 continue
             # If we're doing static analysis where we also care about which
             # imports are unused, then mark the used ones now.
